@@ -28,6 +28,36 @@ func materialSections(r *vlib.Run) {
 		n := randNormal(rng)
 		fixed, fk := randFixed(rng, n)
 		lib := m.lib()
+		// history: a mixture that has already been used with other mixing probabilities and is then
+		// re-tuned through its exported Probs field (a caller balancing variance between renders)
+		// is the mixture its current fields describe, for the sampler and for the density alike
+		if jm, ok := lib.(*render3d.JoinedMaterial); ok && rng.Intn(2) == 0 {
+			k := len(jm.Probs)
+			old := make([]float64, k)
+			left := 64
+			for i := range old {
+				old[i] = 1
+				left--
+			}
+			old[rng.Intn(k)] += float64(left)
+			for i := range old {
+				old[i] /= 64
+			}
+			now := append([]float64{}, jm.Probs...)
+			copy(jm.Probs, old)
+			warm := rand.New(rand.NewSource(rng.Int63()))
+			for i := 0; i < 50; i++ {
+				lib.SampleSource(warm, n.C(), fixed.C())
+				render3d.SampleDest(lib, warm, n.C(), fixed.C())
+				lib.SourceDensity(n.C(), lib.SampleSource(warm, n.C(), fixed.C()), fixed.C())
+			}
+			if rng.Intn(2) == 0 {
+				copy(jm.Probs, now) // in place
+			} else {
+				jm.Probs = now // new slice
+			}
+			c.Count("mat.joined.retuned_after_use", 1)
+		}
 		typ := "render3d." + m.typeName()
 		tag := "mat." + m.Kind
 		mode := c.Index / len(matKinds) % 2
